@@ -46,6 +46,8 @@ ASSUMPTIONS = [
     "result_within_float, re-checked with exact rationals on every case",
     "tolerances in [1e-9, 1e-1] as in the property (theorem needs tol/pi >= 2^-247)",
     "NaN and infinities are outside the property (the real code returns [] for them)",
+    "angles of other numeric types (np.float16/32/64, int, np.int32/64, Fraction, bool) are judged on the double they "
+    "denote; returned lists must not be shared between calls (aliasing stream)",
 ]
 
 
@@ -191,6 +193,65 @@ def run(ctx):
         if bad:
             res.failures.append({"what": "emitted by the builder: " + bad, "kf": None,
                                  "input": {**inp, "emitted": [list(p) for p in rots]}})
+    # ---- equal values of different numeric types (np.float32/16/64, int, np.int64/32, Fraction, bool): the toolbox
+    # function and the builder must treat the VALUE, whatever its type (model + oracle on the double it denotes)
+    sub = [0.0, 1.0, 3.0, -2.0, 7.0, 100.0, -1.0, 0.3, 2e-4, 1.5, -0.75, math.pi, 2 * math.pi, 1.0002e-4, 0.5,
+           6.25, 1e-3, 12345.0, -3.0, 2.0, 4.0, 0.1]
+    sub += [H.random_angle(rng) for _ in range(400 if ctx.thorough else 60)]
+    sub += [float(rng.randrange(-50, 50)) for _ in range(200 if ctx.thorough else 30)]
+    treqs, tmeta = [], []
+    for i, a in enumerate(sub):
+        for label, v, fv in H.typed_variants(a):
+            for tol in (tol0, 1e-9):
+                kind, out = H.real_spec(v, tol)
+                e, r, t = H.exact_inputs(fv, tol)
+                treqs.append({"op": "angle.spec", "E": e, "r": r, "t": t})
+                tmeta.append(("toolbox", label, v, fv, tol, kind, out, None))
+            axis = H.AXES[i % 3]
+            kind, cmds = fb.emit(axis, v)
+            e, r, t = H.exact_inputs(fv, tol0)
+            treqs.append({"op": "angle.emit", "E": e, "r": r, "t": t, "axis": i % 3, "vq": fb.vq})
+            tmeta.append(("builder", label, v, fv, tol0, kind, cmds, axis))
+    tmodel = ctx.driver.batch(treqs)
+    tacc_req, tacc_idx = [], []
+    for j, (where, label, v, fv, tol, kind, out, axis) in enumerate(tmeta):
+        if kind == "ok":
+            rots = [list(p) for p in out] if where == "toolbox" else [[c[3], c[4]] for c in out if c[0] == "rot"]
+            if all(isinstance(n, int) and isinstance(d, int) and n >= 0 and d >= 0 for n, d in rots):
+                rq = treqs[j]
+                tacc_req.append({"op": "angle.accepts", "E": rq["E"], "r": rq["r"], "t": rq["t"], "l": rots})
+                tacc_idx.append(j)
+    tacc = dict(zip(tacc_idx, ctx.driver.batch(tacc_req)))
+    for j, ((where, label, v, fv, tol, kind, out, axis), m) in enumerate(zip(tmeta, tmodel)):
+        res.evaluations += 1
+        res.count("typed-angle:%s:%s" % (where, label))
+        call = "get_angle_spec_from_float(%r, %r)" % (v, tol) if where == "toolbox" else "q.rot_%s(angle=%r)" % (axis, v)
+        inp = {"call": call, "angle_type": label, "angle_value": fv, "angle_hex": _hex(fv), "tol": tol}
+        if kind == "raise":
+            res.failures.append({"what": "%s raises %s for a finite angle of type %s" % (call, out, label),
+                                 "kf": None, "input": inp})
+            continue
+        rots = [tuple(p) for p in out] if where == "toolbox" else [(c[3], c[4]) for c in out if c[0] == "rot"]
+        if rots:
+            res.nontrivial.add(("typed", where, label, _hex(fv), _hex(tol)))
+        modelled = m.get("l") if where == "toolbox" else m.get("cmds")
+        code = [list(p) for p in out] if where == "toolbox" else out
+        if modelled != code and not tacc.get(j, {}).get("ok"):
+            res.disagreements.append({"stream": "angle.typed (value of another numeric type vs model on its double)",
+                                      "input": inp, "model": modelled, "code": code})
+        bad = H.oracle(fv, tol, rots)
+        if bad:
+            res.failures.append({"what": "%s angle: %s" % (label, bad), "kf": None,
+                                 "input": {**inp, "returned" if where == "toolbox" else "emitted": [list(p) for p in rots]}})
+    # ---- aliasing of returned objects: scribble over a returned list, call again, also through the builder
+    al = [0.3, 2e-4, math.pi / 4, 1.0, -2.5, 0.0, 100.0] + [H.random_angle(rng) for _ in range(300 if ctx.thorough else 40)]
+    for i, a in enumerate(al):
+        for tol in (tol0, 1e-9, 1e-2):
+            res.evaluations += 1
+            res.count("alias-check")
+            for b in H.alias_check(a, tol, i % 5, fb, H.AXES[i % 3]):
+                res.failures.append({"what": "aliasing: " + b, "kf": None,
+                                     "input": {"angle": a, "angle_hex": _hex(a), "tol": tol, "scribble": i % 5}})
     # ---- full path (flush, serialise, deserialise) for a few: the instructions carry the same operands
     n_b = 120 if ctx.thorough else 30
     bcases = [("X", 0.3), ("Z", -1e-20), ("Y", 2e-4), ("X", 2 * math.pi), ("Z", 0.0), ("Y", 1.0002e-4)]
